@@ -335,7 +335,8 @@ package obfs4
 //@ func serverCertFromState(st) (cert)
 //@   serves C18 C10
 //@   requires st != nil && st.nodeID != nil && kpOK(st.identityKey)
-//@   ensures [C18:cert_is_nodeid_pubkey] cert != nil && fresh(cert) && len(cert.raw) == 52 && seq(cert.raw) == cat(seq(st.nodeID), seq(st.identityKey.public))
+//@   ensures [C18:cert_is_nodeid_pubkey] cert != nil && fresh(cert) && len(cert.raw) == 52 && sub(seq(cert.raw), 0, 20) == seq(st.nodeID) && sub(seq(cert.raw), 20, 52) == seq(st.identityKey.public)
+//@   ensures [C18:cert_is_the_concatenation] seq(cert.raw) == cat(sub(seq(cert.raw), 0, 20), sub(seq(cert.raw), 20, 52))
 
 //@ func (*obfs4ServerCert).unpack(cert) (id, pk)
 //@   serves C18 C10
